@@ -63,6 +63,7 @@ type Cfg struct {
 	KeepAll   bool
 	Honest    bool // honest proposer only: nothing is forced into a block past admission
 	Gossip    bool // replicas run the mempool check on every submitted transaction before each block
+	Stray     bool // transfers that are in no block reach every replica's mempool check while blocks execute
 	Byzantine int  // percent of the transactions the mempool check refuses that are put into blocks anyway
 	// Schedule knobs
 	Jumps       bool                   // occasionally jump block time across cycle/year boundaries
@@ -151,6 +152,15 @@ func Run(cfg Cfg) *Result {
 			plan.PerReplica = func(i int, base proto.Recipe, sofar *hist.Block) *proto.Recipe {
 				return cfg.PerReplica(r, h, i, base, sofar)
 			}
+		}
+		if cfg.Stray && len(w.Users) > 2 {
+			// a good transfer and one beyond the sender's means, from accounts that rotate; never proposed
+			us := w.Users
+			a, b := us[int(c.H)%len(us)], us[int(c.H+1)%len(us)]
+			good := txb.Tx(txb.Send(a.Addr, b.Addr, "OLT", fmt.Sprint(3+c.H%5)), txb.DefaultFee(), fmt.Sprintf("stray-%s-%d-%d", cfg.Tag, cfg.Seed, c.H), a)
+			poor := txb.Tx(txb.Send(b.Addr, a.Addr, "OLT", "900000000000"), txb.DefaultFee(), fmt.Sprintf("stray-poor-%s-%d-%d", cfg.Tag, cfg.Seed, c.H), b)
+			at := []string{"after:BeginBlock", "after:DeliverTx:0", "before:EndBlock", "before:Commit"}
+			plan.Stray = map[string][][]byte{at[int(c.H)%len(at)]: {good}, at[int(c.H+2)%len(at)]: {poor}}
 		}
 		blk, err := r.Step(plan)
 		if err != nil {
